@@ -498,6 +498,31 @@ class NDArray:
             idx.insert(pos, i)
         return NDArray(idx, (len(idx),), "int")
 
+    def any(self, axis=None):
+        return any_(self, axis)
+
+    def all(self, axis=None):
+        return all_(self, axis)
+
+    def mean(self, axis=None):
+        if axis is not None:
+            raise ModelUnsupported("mean axis")
+        return _np_div(sum_(self), len(self._d))
+
+    def argmin(self):
+        best = 0
+        for i in range(1, len(self._d)):
+            if self._d[i] < self._d[best]:
+                best = i
+        return best
+
+    def argmax(self):
+        best = 0
+        for i in range(1, len(self._d)):
+            if self._d[i] > self._d[best]:
+                best = i
+        return best
+
     def max(self):
         m = self._d[0]
         for x in self._d[1:]:
@@ -661,6 +686,28 @@ def empty(shape, dtype=float):
     return NDArray([None] * _prod(shape), shape, _norm_dtype(dtype))
 
 
+def full(shape, fill_value, dtype=None):
+    shape = (int(shape),) if not isinstance(shape, (tuple, list)) else tuple(int(x) for x in shape)
+    if dtype is None:
+        dtype = _infer_dtype([fill_value])
+    return NDArray([fill_value] * _prod(shape), shape, _norm_dtype(dtype))
+
+
+def _tri_indices(n, k, m, upper):
+    n = int(n)
+    m = n if m is None else int(m)
+    cells = [(i, j) for i in range(n) for j in range(m) if (j - i >= k if upper else j - i <= k)]
+    return (NDArray([i for i, _ in cells], (len(cells),), "int"), NDArray([j for _, j in cells], (len(cells),), "int"))
+
+
+def triu_indices(n, k=0, m=None):
+    return _tri_indices(n, int(k), m, True)
+
+
+def tril_indices(n, k=0, m=None):
+    return _tri_indices(n, int(k), m, False)
+
+
 def arange(*args):
     return NDArray(list(range(*[int(a) for a in args])), (len(range(*[int(a) for a in args])),), "int")
 
@@ -684,6 +731,39 @@ def sum_(a, axis=None):
             return NDArray([_tot([a._d[i * c + j] for i in range(r)]) for j in range(c)], (c,))
         return NDArray([_tot(a._d[i * c:(i + 1) * c]) for i in range(r)], (r,))
     raise ModelUnsupported("sum axis")
+
+
+def _truth(x):
+    if isinstance(x, bool) or _is_symbool(x):
+        return x
+    if isinstance(x, str):
+        return len(x) > 0
+    return x != 0
+
+
+def any_(a, axis=None):
+    a = a if isinstance(a, NDArray) else array(_as_list(a))
+    if axis is not None:
+        raise ModelUnsupported("any axis")
+    return so.b_or(*[_truth(x) for x in a._d]) if a._d else False
+
+
+def all_(a, axis=None):
+    a = a if isinstance(a, NDArray) else array(_as_list(a))
+    if axis is not None:
+        raise ModelUnsupported("all axis")
+    return so.b_and(*[_truth(x) for x in a._d]) if a._d else True
+
+
+def where(cond, x=None, y=None):
+    c = cond if isinstance(cond, NDArray) else array(_as_list(cond))
+    if x is None and y is None:
+        if c.ndim != 1:
+            raise ModelUnsupported("where n-d")
+        return (NDArray([i for i, v in enumerate(c._d) if _truth(v)], None, "int"),) if False else (array([i for i, v in enumerate(c._d) if _truth(v)], dtype="int"),)
+    xs = _broadcast_to(x, len(c._d)) if not isinstance(x, NDArray) or x.size == 1 else list(x._d)
+    ys = _broadcast_to(y, len(c._d)) if not isinstance(y, NDArray) or y.size == 1 else list(y._d)
+    return NDArray([so.ite(_truth(v), a_, b_) for v, a_, b_ in zip(c._d, xs, ys)], c.shape)
 
 
 def _tot(xs):
@@ -1072,7 +1152,7 @@ def make_proxy(real_numpy, fallthrough_log):
         "sum": sum_, "unique": unique, "intersect1d": intersect1d, "histogram": histogram,
         "fill_diagonal": fill_diagonal, "concatenate": concatenate, "repeat": repeat, "log": log,
         "sqrt": sqrt, "floor": floor, "ceil": ceil, "isnan": isnan, "sort": sort, "amax": amax,
-        "tril": tril, "triu": triu, "random": RANDOM, "ndarray": NDArray, "bincount": bincount, "size": lambda a: asarray(a).size,
+        "tril": tril, "triu": triu, "random": RANDOM, "ndarray": NDArray, "bincount": bincount, "full": full, "any": any_, "all": all_, "where": where, "triu_indices": triu_indices, "tril_indices": tril_indices, "size": lambda a: asarray(a).size,
     }
     return ModuleProxy(real_numpy, over, fallthrough_log)
 
